@@ -184,6 +184,9 @@ _ID_PREFIX = None
          "                        if future.result().exception is not None and len(futures) > n - 1:\n                            continue\n                        yield future.result()\n", "caught"),
         ("args-dropped", "tatsu/parproc/task.py", "outcome = task.func(task.payload, *task.args, **task.kwargs)", "outcome = task.func(task.payload, **task.kwargs)", "caught"),
         ("sequential-skips-failures", "tatsu/parproc/parproc.py", "yield from map(taskproc, tasks)", "yield from (r for r in map(taskproc, tasks) if r.exception is None)", "caught"),
+        ("sequential-clears-traceback", "tatsu/parproc/parproc.py", "yield from map(taskproc, tasks)", "for _r in map(taskproc, tasks):\n            if _r.exception is not None:\n                _r.exception.__traceback__ = None\n            yield _r", "caught"),
+        ("payload-restored-by-path", "tatsu/parproc/parproc.py", "yield from pmap(stop, taskproc, tasks, max_workers)", "sent = {getattr(t.payload, 'path', None): t.payload for t in tasks}\n        for _r in pmap(stop, taskproc, tasks, max_workers):\n            _r.payload = sent.get(getattr(_r.payload, 'path', None), _r.payload)\n            yield _r", "caught"),
+        ("results-deduplicated-by-payload", "tatsu/parproc/parproc.py", "yield from pmap(stop, taskproc, tasks, max_workers)", "done = []\n        for _r in pmap(stop, taskproc, tasks, max_workers):\n            if any(_r.payload == p for p in done):\n                continue\n            done.append(_r.payload)\n            yield _r", "caught"),
         ("processing-loop-dedupes-file-names", "tatsu/parproc/legacy.py", "paths = [Path(f) for f in filenames]", "paths = sorted({Path(f) for f in filenames})[:-1]", "caught"),
         ("processing-loop-text-of-first-file", "tatsu/parproc/legacy.py", "payloads = [VisualPayload(p, p.read_text()) for p in paths]", "payloads = [VisualPayload(p, paths[0].read_text()) for p in paths]", "caught"),
         # negative controls: behaviour-preserving edits — the check must stay quiet
